@@ -41,14 +41,14 @@ extern void *mpt_qpop(MPT_STRUCT(queue) *queue, size_t len, void *data)
 			errno = EINVAL;
 			return 0;
 		}
-		len -= high;
-		if (len > low) {
+		if ((len - high) > low) {
 			errno = ERANGE;
 			return 0;
 		}
-		base = ((uint8_t *) queue->base) + queue->max - len;
-		memcpy(data, base, high);
-		memcpy(((uint8_t *) data) + len, queue->base, high);
+		low = len - high;
+		base = ((uint8_t *) queue->base) + queue->max - low;
+		memcpy(data, base, low);
+		memcpy(((uint8_t *) data) + low, queue->base, high);
 		
 		base = data;
 	}
